@@ -13,6 +13,7 @@
 package c11
 
 import (
+	"bytes"
 	"fmt"
 	"strings"
 	"testing"
@@ -383,8 +384,17 @@ func checkStream(c streamCase, r *h.Rec) error {
 		// ---- a call that has to fail: it must panic, and must not spoil later calls
 		if pl.fail > 0 {
 			var src, dst []byte
+			var spare, spareWant []byte
 			if pl.fail == 1 {
-				src, dst = make([]byte, op.Len), make([]byte, op.Len-1)
+				// one byte too short, with patterned room behind its length on every
+				// second case: the refusal must not be replaced by a write into it
+				src = make([]byte, op.Len)
+				heap := gen.Fill(gen.Mix(c.Seed, uint64(i), 0x5ca1), op.Len+40)
+				dst = heap[: op.Len-1 : op.Len-1]
+				if (c.Seed+uint64(i))%2 == 0 {
+					dst = heap[:op.Len-1]
+					spare, spareWant = heap[op.Len-1:], append([]byte{}, heap[op.Len-1:]...)
+				}
 			} else {
 				buf := make([]byte, op.Len+1)
 				src, dst = buf[:op.Len], buf[1:op.Len+1]
@@ -394,6 +404,9 @@ func checkStream(c streamCase, r *h.Rec) error {
 				call(dst, src)
 				return
 			}()
+			if !bytes.Equal(spare, spareWant) {
+				return fmt.Errorf("op %d of [%s]: a call with len(dst) = len(src)-1 wrote behind len(dst) into the caller's spare capacity", i, c.history())
+			}
 			if !panicked {
 				return fmt.Errorf("op %d of [%s]: the call did not panic (cipher.Stream: 'If len(dst) < len(src), XORKeyStream should panic'; partial overlap is forbidden)", i, c.history())
 			}
